@@ -106,85 +106,102 @@ func c13Scenarios(tier string) []*Scenario {
 			}
 		}
 	}
-	for _, init := range []int{1, 2} {
-		for _, h := range hist {
-			h := h
-			var ids []string
-			for _, r := range h {
-				ids = append(ids, fmt.Sprintf("%s=%d", r.name, r.n))
-			}
-			sc := &Scenario{ID: fmt.Sprintf("c13-init%d-%s", init, strings.Join(ids, ",")), YAML: c13YAML(init), K: 0, TickBudget: 0, EnvCost: 1, Horizon: 100 * time.Second,
-				Procs: map[string]*ProcScript{"d": {Launches: exits(0)}, "x": {}, "w": {}}}
-			init := init
-			ready := func(w *World) bool {
-				// every initial replica and the bystander are running
-				nw, nx := 0, 0
-				for _, f := range w.procs {
-					if f.Alive() && f.Name == "w" {
-						nw++
-					}
-					if f.Alive() && f.Name == "x" {
-						nx++
-					}
+	for _, wbeh := range []string{"daemon", "done", "pending"} {
+		for _, init := range []int{1, 2} {
+			for _, h := range hist {
+				h := h
+				if wbeh != "daemon" && (len(h) > 1 || (tier != "thorough" && h[0].n > 3 && h[0].n != 10)) {
+					continue
 				}
-				return nw == init && nx == 1
-			}
-			var calls []APICall
-			for i, r := range h {
-				r := r
-				c := APICall{Op: "fn", Name: fmt.Sprintf("scale:%s:%d", r.name, r.n), Fn: func(w *World) (string, error) {
-					o := &c13Obs{Call: "scale", N: r.n, Name: r.name}
-					_, before, _, _ := c13Observe(w)
-					var bl []string
-					for k, v := range before {
-						bl = append(bl, k+"="+v)
-					}
-					sort.Strings(bl)
-					o.Before = bl
-					w.mu.Lock()
-					o.TracePos = len(w.trace)
-					w.mu.Unlock()
-					// the request names a replica as the TUI / REST client do: replica 0 under its current name
-					reqName := r.name
-					if r.name == "w" {
-						curN, _ := w.Extra["c13cur"].(int)
-						if curN == 0 {
-							curN = init
+				var ids []string
+				for _, r := range h {
+					ids = append(ids, fmt.Sprintf("%s=%d", r.name, r.n))
+				}
+				sc := &Scenario{ID: fmt.Sprintf("c13-%s-init%d-%s", wbeh, init, strings.Join(ids, ",")), YAML: c13YAML(init), K: 0, TickBudget: 0, EnvCost: 1, Horizon: 100 * time.Second,
+					Procs: map[string]*ProcScript{"d": {Launches: exits(0)}, "x": {}, "w": {}}}
+				switch wbeh {
+				case "done": // the replicas have already completed when the request arrives
+					sc.Procs["w"] = &ProcScript{Launches: exits(0)}
+				case "pending": // the replicas are still waiting for d
+					sc.Procs["d"] = &ProcScript{}
+				}
+				init, wbeh := init, wbeh
+				ready := func(w *World) bool {
+					// every initial replica and the bystander are running
+					nw, nx := 0, 0
+					for _, f := range w.procs {
+						if f.Alive() && f.Name == "w" {
+							nw++
 						}
-						reqName = refReplicaName("w", curN, 0)
+						if f.Alive() && f.Name == "x" {
+							nx++
+						}
 					}
-					err := w.Runner.ScaleProcess(reqName, r.n)
-					if err == nil && r.name == "w" {
-						w.Extra["c13cur"] = r.n
+					switch wbeh {
+					case "done":
+						return w.launches["w#0"] > 0 && w.launches[fmt.Sprintf("w#%d", init-1)] > 0 && nw == 0 && nx == 1
+					case "pending":
+						return nx == 1 && w.launches["d#0"] > 0
 					}
-					if err != nil {
-						o.Err = err.Error()
-					}
-					o.Names, o.Infos, o.States, o.LogNames = c13Observe(w)
-					w.mu.Lock()
-					o.RetPos = len(w.trace)
-					obs, _ := w.Extra["c13"].([]*c13Obs)
-					w.Extra["c13"] = append(obs, o)
-					w.mu.Unlock()
-					return "", err
-				}}
-				if i == 0 {
-					c.When = ready
+					return nw == init && nx == 1
 				}
-				calls = append(calls, c)
+				var calls []APICall
+				for i, r := range h {
+					r := r
+					c := APICall{Op: "fn", Name: fmt.Sprintf("scale:%s:%d", r.name, r.n), Fn: func(w *World) (string, error) {
+						o := &c13Obs{Call: "scale", N: r.n, Name: r.name}
+						_, before, _, _ := c13Observe(w)
+						var bl []string
+						for k, v := range before {
+							bl = append(bl, k+"="+v)
+						}
+						sort.Strings(bl)
+						o.Before = bl
+						w.mu.Lock()
+						o.TracePos = len(w.trace)
+						w.mu.Unlock()
+						// the request names a replica as the TUI / REST client do: replica 0 under its current name
+						reqName := r.name
+						if r.name == "w" {
+							curN, _ := w.Extra["c13cur"].(int)
+							if curN == 0 {
+								curN = init
+							}
+							reqName = refReplicaName("w", curN, 0)
+						}
+						err := w.Runner.ScaleProcess(reqName, r.n)
+						if err == nil && r.name == "w" {
+							w.Extra["c13cur"] = r.n
+						}
+						if err != nil {
+							o.Err = err.Error()
+						}
+						o.Names, o.Infos, o.States, o.LogNames = c13Observe(w)
+						w.mu.Lock()
+						o.RetPos = len(w.trace)
+						obs, _ := w.Extra["c13"].([]*c13Obs)
+						w.Extra["c13"] = append(obs, o)
+						w.mu.Unlock()
+						return "", err
+					}}
+					if i == 0 {
+						c.When = ready
+					}
+					calls = append(calls, c)
+				}
+				sc.API = [][]APICall{calls}
+				if len(h) == 1 && (tier == "thorough" || h[0].n <= 3) {
+					sc.K = 1 // one deviation: an environment event out of order, an early event or a delayed thread
+				}
+				sc.Check = func(w *World) []Violation { return c13Check(w, init, wbeh) }
+				scs = append(scs, sc)
 			}
-			sc.API = [][]APICall{calls}
-			if len(h) == 1 && (tier == "thorough" || h[0].n <= 3) {
-				sc.K = 1 // one deviation: an environment event out of order, an early event or a delayed thread
-			}
-			sc.Check = func(w *World) []Violation { return c13Check(w, init) }
-			scs = append(scs, sc)
 		}
 	}
 	return scs
 }
 
-func c13Check(w *World, init int) []Violation {
+func c13Check(w *World, init int, wbeh string) []Violation {
 	var vs []Violation
 	obs, _ := w.Extra["c13"].([]*c13Obs)
 	tr := w.pre()
@@ -270,13 +287,13 @@ func c13Check(w *World, init int) []Violation {
 				vs = append(vs, viol("C13", "bystander", "scale %d->%d caused %s of %s", prev, o.N, e.Kind, e.Proc))
 			case e.Kind == "signal" && num < o.N:
 				vs = append(vs, viol("C13", "survivor-disturbed:signal", "scale %d->%d signalled surviving replica %d", prev, o.N, num))
-			case e.Kind == "start" && num < prev:
+			case e.Kind == "start" && num < prev && wbeh == "daemon":
 				vs = append(vs, viol("C13", "survivor-disturbed:restart", "scale %d->%d relaunched existing replica %d", prev, o.N, num))
 			}
 		}
 	}
 	// at the end: removed replicas ended, added ones were launched with their own number
-	if len(obs) > 0 && w.Outcome != "deadlock" {
+	if len(obs) > 0 && w.Outcome != "deadlock" && wbeh == "daemon" {
 		alive := map[int]bool{}
 		for _, f := range w.procs {
 			if f.Name == "w" && f.started && (!f.exited || f.inCleanup) {
